@@ -172,19 +172,22 @@ def r3_readers(ctx):
     # list_snapshots formatters
     ls = corpus.func('repository', 'Repository.list_snapshots')
     cls = repo_cls(corpus)
+    from .common import listing_getter_roles
+
+    DATA = listing_getter_roles(corpus, 'list_snapshots').get('data', 'data')
     getters = []
     for n in walk_local(ls.node):
         if isinstance(n, ast.Dict):
             for v in n.values:
                 if isinstance(v, ast.Attribute) and isinstance(v.value, ast.Name) and v.value.id == 'self':
                     m = corpus.method(cls, v.attr)
-                    if m is not None and 'data' in [a.arg for a in m.node.args.kwonlyargs + m.node.args.args]:
+                    if m is not None and DATA in [a.arg for a in m.node.args.kwonlyargs + m.node.args.args]:
                         getters.append(m)
     ctx.floor('C06.R3', 'snapshot column formatters', len(getters), 3)
     for m in getters:
         ctx.analysed(m)
         ctx.check(
-            _data_guarded(m.node),
+            _data_guarded(m.node, DATA),
             'C06.R3',
             f'{func_label(m)}|formatter-guards-missing-data',
             loc(m, m.node),
@@ -215,7 +218,7 @@ def _is_data_none(t, allow_name=False):
     return allow_name and isinstance(left, ast.Name) and 'data' in left.id
 
 
-def _data_guarded(fnode) -> bool:
+def _data_guarded(fnode, DATA='data') -> bool:
     """Every Load of the parameter `data` that is not itself the guard is in the right operand of
     `data and ...` or is reached only through a "data is not None" edge of the CFG (guard clause
     `if data is None: return`, positive `if data is not None:`, truthiness tests)."""
@@ -227,15 +230,15 @@ def _data_guarded(fnode) -> bool:
             neg = False
             if isinstance(t, ast.UnaryOp) and isinstance(t.op, ast.Not):
                 t, neg = t.operand, True
-            if isinstance(t, ast.Name) and t.id == 'data':
+            if isinstance(t, ast.Name) and t.id == DATA:
                 nonnull += cfg.nodes_of(st, 'false' if neg else 'true')
-            elif isinstance(t, ast.Compare) and len(t.ops) == 1 and isinstance(t.left, ast.Name) and t.left.id == 'data' and isinstance(t.comparators[0], ast.Constant) and t.comparators[0].value is None:
+            elif isinstance(t, ast.Compare) and len(t.ops) == 1 and isinstance(t.left, ast.Name) and t.left.id == DATA and isinstance(t.comparators[0], ast.Constant) and t.comparators[0].value is None:
                 if isinstance(t.ops[0], (ast.Is, ast.Eq)):
                     nonnull += cfg.nodes_of(st, 'true' if neg else 'false')
                 elif isinstance(t.ops[0], (ast.IsNot, ast.NotEq)):
                     nonnull += cfg.nodes_of(st, 'false' if neg else 'true')
     for n in ast.walk(fnode):
-        if isinstance(n, ast.Name) and n.id == 'data' and isinstance(n.ctx, ast.Load):
+        if isinstance(n, ast.Name) and n.id == DATA and isinstance(n.ctx, ast.Load):
             par = getattr(n, '_parent', None)
             # guard positions
             if isinstance(par, ast.BoolOp) and isinstance(par.op, ast.And) and par.values[0] is n:
@@ -246,13 +249,15 @@ def _data_guarded(fnode) -> bool:
                 continue
             if isinstance(par, ast.UnaryOp) and isinstance(par.op, ast.Not):
                 continue
+            if isinstance(par, ast.Return) and par.value is n:
+                continue  # handing the (missing) value back is not a use of its contents
             ok = False
             cur = n
             while cur is not None and cur is not fnode:
                 p = getattr(cur, '_parent', None)
-                if isinstance(p, ast.BoolOp) and isinstance(p.op, ast.And) and p.values and isinstance(p.values[0], ast.Name) and p.values[0].id == 'data' and cur is not p.values[0]:
+                if isinstance(p, ast.BoolOp) and isinstance(p.op, ast.And) and p.values and isinstance(p.values[0], ast.Name) and p.values[0].id == DATA and cur is not p.values[0]:
                     ok = True
-                if isinstance(p, ast.IfExp) and cur is p.body and isinstance(p.test, ast.Compare) and isinstance(p.test.left, ast.Name) and p.test.left.id == 'data' and isinstance(p.test.ops[0], ast.IsNot):
+                if isinstance(p, ast.IfExp) and cur is p.body and isinstance(p.test, ast.Compare) and isinstance(p.test.left, ast.Name) and p.test.left.id == DATA and isinstance(p.test.ops[0], ast.IsNot):
                     ok = True
                 cur = p
             if not ok and nonnull:
